@@ -1553,6 +1553,28 @@ func (c *c11) caseConn(tamper string, wrongKey bool) {
 			desc = fmt.Sprintf("cut:%s:%d", name, off)
 		}
 	}
+	// the acts reach the other side in fragments (a first Read may return a single
+	// byte, the rest comes with later Reads): io.ReadFull has to assemble them.
+	// Split points are drawn up front; each pipe is read by one goroutine only.
+	fragmented := 0
+	if c.rng.Intn(10) < 7 {
+		fragmented = 1
+		for _, p := range []*vpipe{i2r, r2i} {
+			var plan []int
+			plan = append(plan, []int{1, 1, 2, 33, 49, 50, 65, 1 + c.rng.Intn(65)}[c.rng.Intn(8)])
+			for k := 0; k < 200; k++ {
+				plan = append(plan, []int{1, 2, 5, 16, 17, 33, 34, 49, 50, 0, 1 + c.rng.Intn(66)}[c.rng.Intn(11)])
+			}
+			at := 0
+			p.frag = func() int {
+				if at >= len(plan) {
+					return 0
+				}
+				at++
+				return plan[at-1]
+			}
+		}
+	}
 	// deterministic ephemeral keys: the initiator draws first
 	oldGen := ephemeralGen
 	queue := []*btcec.PrivateKey{ie.priv, re.priv}
@@ -1628,8 +1650,10 @@ func (c *c11) caseConn(tamper string, wrongKey bool) {
 	}
 	c.stats["conn_dial_"+dres]++
 	c.stats["conn_accept_"+ares]++
-	c.pf("connhs is=%d ie=%d target=%d rs=%d re=%d tamper=%s pk=%s => dial=%s accept=%s rpub=%s", is.id, ie.id, target.id,
-		rs.id, re.id, desc, pk, dres, ares, rp)
+	i2r.frag, r2i.frag = nil, nil
+	c.stats[fmt.Sprintf("conn_fragmented_%d", fragmented)]++
+	c.pf("connhs is=%d ie=%d target=%d rs=%d re=%d tamper=%s pk=%s frag=%d => dial=%s accept=%s rpub=%s", is.id, ie.id, target.id,
+		rs.id, re.id, desc, pk, fragmented, dres, ares, rp)
 	if d.err == nil && a.err == nil {
 		i2r.block, r2i.block = false, false
 		// Conn.Write / Conn.Read including chunking above 65535 bytes
